@@ -803,10 +803,15 @@ Definition opt_index (o : option nat) : value :=
 
 Definition clamp0 (z : Z) : Z := if (z <? 0)%Z then 0%Z else z.
 
+(* [Z.to_nat z] capped at [cap] (= Nat.min (Z.to_nat z) cap), computed without ever building a
+   unary number larger than [cap]: index arguments range over all of i64 *)
+Definition to_nat_capped (z : Z) (cap : nat) : nat :=
+  if (Z.of_nat cap <=? z)%Z then cap else Z.to_nat z.
+
 (* util::compare_len *)
 Definition compare_len (a b : str) (len : option Z) : Z :=
   let cut s := match len with
-               | Some l => if (l <? 0)%Z then s else firstn (Z.to_nat l) s
+               | Some l => if (l <? 0)%Z then s else firstn (to_nat_capped l (length s)) s
                | None => s
                end in
   match str_cmp (cut a) (cut b) with Lt => (-1)%Z | Eq => 0%Z | Gt => 1%Z end.
@@ -870,12 +875,11 @@ Definition cmd_string (st : interp) (argv : list value) : M value :=
     let needle := as_str (arg argv 2) in
     let hay := as_str (arg argv 3) in
     do (st, start) <- (if Nat.eqb (length argv) 5
-                       then do (st, z) <- lift_sum st (v_as_int (arg argv 4)); ret st (Z.to_nat (clamp0 z))
+                       then do (st, z) <- lift_sum st (v_as_int (arg argv 4));
+                            ret st (to_nat_capped (clamp0 z) (length hay))
                        else ret st O);
-    if Nat.leb (length hay) start && negb (Nat.eqb (length hay) 0 && Nat.eqb start 0) then
-      (* char_indices().nth(start) is None when start >= length *)
-      ret st (VInt (-1))
-    else if Nat.leb (length hay) start then ret st (VInt (-1))
+    (* char_indices().nth(start) is None when start >= length *)
+    if Nat.leb (length hay) start then ret st (VInt (-1))
     else ret st (opt_index (find_from needle (skipn start hay) start))
   else if is_sub argv "last" then
     do (st, _) <- lift st (check_args "cmd_string_last" argv);
@@ -917,7 +921,8 @@ Definition cmd_string (st : interp) (argv : list value) : M value :=
     else
       let f := clamp0 first in
       if (lastz <? f)%Z then ret st (VStr [])
-      else ret st (VStr (firstn (Z.to_nat (lastz - f + 1)) (skipn (Z.to_nat f) s)))
+      else ret st (VStr (firstn (to_nat_capped (lastz - f + 1) (length s))
+                                (skipn (to_nat_capped f (length s)) s)))
   else if is_sub argv "tolower" then
     do (st, _) <- lift st (check_args "cmd_string_tolower" argv);
     ret st (VStr (u_lower U (as_str (arg argv 2))))
